@@ -235,6 +235,65 @@ pub fn run(input: &mut dyn BufRead, out: &mut dyn Write, _args: &[String]) -> R 
                     }
                     json!({"rows": rows})
                 }
+                "hdr_table" => {
+                    // header-list pairs: lists of length <= maxlen over the given alphabets, indexed in
+                    // length-then-lexicographic order (index 0 = empty list); one row per observed list
+                    use huginn_net_db::observable_http_signals_matching::HttpDistance;
+                    use huginn_net_db::observable_signals::HttpRequestObservation;
+                    let oa: Vec<huginn_net_db::http::Header> = arr(&v["obs_alpha"]).iter().map(header_from).collect();
+                    let sa: Vec<huginn_net_db::http::Header> = arr(&v["sig_alpha"]).iter().map(header_from).collect();
+                    let maxlen = u(&v["maxlen"]) as usize;
+                    fn lists(alpha: &[huginn_net_db::http::Header], maxlen: usize) -> Vec<Vec<huginn_net_db::http::Header>> {
+                        let mut all = vec![vec![]];
+                        let mut prev: Vec<Vec<huginn_net_db::http::Header>> = vec![vec![]];
+                        for _ in 0..maxlen {
+                            let mut next = vec![];
+                            for p in &prev {
+                                for a in alpha {
+                                    let mut q = p.clone();
+                                    q.push(a.clone());
+                                    next.push(q);
+                                }
+                            }
+                            all.extend(next.iter().cloned());
+                            prev = next;
+                        }
+                        all
+                    }
+                    let ol = lists(&oa, maxlen);
+                    let sl = lists(&sa, maxlen);
+                    let rows: Vec<Value> = ol
+                        .iter()
+                        .enumerate()
+                        .map(|(i, o)| json!({"oi": i, "runs": rle(sl.iter().map(|s| od(<HttpRequestObservation as HttpDistance>::distance_header(o, s))))}))
+                        .collect();
+                    json!({"rows": rows, "nobs": ol.len(), "nsig": sl.len()})
+                }
+                "sw_table" => {
+                    use huginn_net_db::observable_http_signals_matching::HttpDistance;
+                    let strs: Vec<String> = arr(&v["strs"]).iter().map(|x| x.as_str().unwrap().to_string()).collect();
+                    let mut rows = vec![];
+                    for o in &strs {
+                        let obs = huginn_net_db::observable_signals::HttpRequestObservation { version: http::Version::V11, horder: vec![], habsent: vec![], expsw: o.clone() };
+                        let ds: Vec<i64> = strs
+                            .iter()
+                            .map(|sw| od(obs.distance_expsw(&http::Signature { version: http::Version::V11, horder: vec![], habsent: vec![], expsw: sw.clone() })))
+                            .collect();
+                        rows.push(json!({"o": o, "d": ds}));
+                    }
+                    json!({"rows": rows})
+                }
+                "db_sigs" => {
+                    let f = |c: &Vec<(huginn_net_db::Label, Vec<tcp::Signature>)>| -> Vec<Value> {
+                        c.iter().enumerate().flat_map(|(li, (l, sigs))| sigs.iter().enumerate().map(move |(si, s)| json!({"li": li + 1, "si": si + 1, "label": label_to(l), "sig": tcp_sig_to(s), "text": s.to_string()})).collect::<Vec<_>>()).collect()
+                    };
+                    let g = |c: &Vec<(huginn_net_db::Label, Vec<http::Signature>)>| -> Vec<Value> {
+                        c.iter().enumerate().flat_map(|(li, (l, sigs))| sigs.iter().enumerate().map(move |(si, s)| json!({"li": li + 1, "si": si + 1, "label": label_to(l), "sig": http_sig_to(s), "text": s.to_string()})).collect::<Vec<_>>()).collect()
+                    };
+                    json!({"tcp_request": f(&default_db.tcp_request.entries), "tcp_response": f(&default_db.tcp_response.entries),
+                           "http_request": g(&default_db.http_request.entries), "http_response": g(&default_db.http_response.entries),
+                           "mtu": default_db.mtu.iter().map(|(l, v)| json!({"label": l, "sigs": v})).collect::<Vec<_>>()})
+                }
                 "score_table" => {
                     json!({"tcp": score_breaks(TcpMatchQuality::distance_to_score), "http": score_breaks(HttpMatchQuality::distance_to_score)})
                 }
